@@ -4,6 +4,7 @@ FIX_COMMITS = ["5da2d24", "9b55744", "1ceb643", "2d49340", "9d87992", "737054a",
 NOTES = ("Every check: TLC model-checks the module's design on small constants, then binds it to /repo's current working "
          "tree (rebuilt on every run with -tags verif). Exit 2 = infrastructure problem, never a verdict.")
 NOT_APPLICABLE = {}
+SUSPENDED = {"C17": "temporarily unclaimed: FzfBind is being updated to mirror the parseActionList fix 6946a78 (stricter rejection)"}
 CHECKS = {
     "C16": {
         "text": "FzfServer.tla (atom-level byte streams; connection state machine Arrive/CloseEarly/SeeEOF/Scan/Finish; Respond; "
